@@ -30,6 +30,8 @@ C01.6: every mutator the pipeline applies (transform, scale, project,
 reduce_to_ids) refreshes or flushes each materialised view in every cache
 configuration (instances of C08.1), so the metric — which reads positions for
 the translation relations and matrices otherwise — sees the processed poses.
+C01.9: the requested alignment is the Umeyama fit over all / the first n pose
+pairs with the estimate mapped onto the reference (instances of C04.1-3).
 C01.5: option wiring — every parameter receives the args attribute of the same
 meaning, reference/estimate roles are never crossed, both trajectories get the
 same filtering and the same projection plane.
@@ -60,7 +62,7 @@ MANIFEST = dict(
               "event log + argument provenance",
 )
 FLOORS = {"C01.1": 1, "C01.2": 6, "C01.3": 18, "C01.4": 8, "C01.5": 25,
-          "C01.6": 20, "C01.7": 12, "C01.8": 4}
+          "C01.6": 20, "C01.7": 12, "C01.8": 4, "C01.9": 30}
 
 APE = "evo.core.metrics.APE"
 
@@ -239,6 +241,7 @@ def check(ctx):
     ctx.section(_pipeline_views, ctx, "C01.6")
     ctx.section(_pipeline_inputs, ctx, "C01.7")
     ctx.section(_helpers, ctx, "C01.8")
+    ctx.section(_alignment, ctx, "C01.9")
 
 
 def _unconditional_after_guard(e: Event) -> bool:
@@ -291,6 +294,18 @@ def _helpers(ctx, rule: str):
     ctx.require(n >= 4, f"{rule}: Lie helper instances not found")
 
 
+def _alignment(ctx, rule: str):
+    """'the pose pairs that remain after the requested ... alignment': the
+    alignment ape()/rpe() request is PosePath3D.align — the Umeyama map of
+    the estimate's positions onto the reference's, over all pose pairs or
+    the first n_to_align, applied as scale then rigid motion. A fit over
+    other pairs (a dropped last pair, crossed roles) changes every stored
+    value — instances of C04.1 / C04.2 / C04.3"""
+    from ..core import import_rules
+    n = import_rules(ctx, "c04", ("C04.1", "C04.2", "C04.3"), rule)
+    ctx.require(n >= 30, f"{rule}: alignment instances not found")
+
+
 def _pipeline_views(ctx, rule: str):
     """the metric reads positions / pose matrices of the objects the pipeline
     mutated: every mutator applied by ape()/rpe() (transform, scale, project,
@@ -324,7 +339,8 @@ def _pipeline(ctx, fq: str, metric_cls: str, P: str):
         ev("PosePath3D.project")
     pd = ev(f"{metric_cls}.process_data")
     cu, gr = ev("PE.change_unit"), ev("PE.get_result")
-    ctx.require(al and og and len(pj) == 2 and len(pd) == 1 and cu and gr,
+    ctx.require(al and og and len({id(e.node) for e in pj}) == 2 and
+                len(pd) == 1 and cu and gr,
                 f"{fq}: pipeline steps not found (unknown idiom)")
     seq = [("umeyama/scale alignment", al), ("origin alignment", og),
            ("projection", pj), ("metric", pd), ("unit change", cu),
@@ -388,6 +404,41 @@ def _pipeline(ctx, fq: str, metric_cls: str, P: str):
            f"{f.name}(): change_unit(change_unit) iff requested" if ok else
            f"{f.name}(): unit change wiring: {fmt(cuv)} under "
            f"{fmt(cu[0].live)}", key=f"{_R(P, 4)}:{f.name}:change-unit")
+    # every step runs exactly when its own option asks for it, whatever the
+    # other options are (the property quantifies over all combinations)
+    opts = {"align": tm.param("align"),
+            "correct_scale": tm.param("correct_scale"),
+            "align_origin": tm.param("align_origin"),
+            "project_to_plane": plane, "change_unit": cup}
+    for sname, evs, own in (("alignment", al, ("align", "correct_scale")),
+                            ("origin alignment", og, ("align_origin",)),
+                            ("projection", pj, ("project_to_plane",)),
+                            ("unit change", cu, ("change_unit",))):
+        def world(on_own, on_others, own=own):
+            def assign(t):
+                for k, v in opts.items():
+                    if t is v:
+                        return on_own if k in own else on_others
+                    if t.op == "cmp" and t.args[0] in ("Is", "IsNot") and \
+                            t.args[1] is v and t.args[2] is tm.NONE:
+                        val = on_own if k in own else on_others
+                        return val == (t.args[0] == "IsNot")
+                return None
+            return assign
+        alone = [tm.fold(e.live, world(True, False)) for e in evs]
+        every = [tm.fold(e.live, world(True, True)) for e in evs]
+        off = [tm.fold(e.live, world(False, True)) for e in evs]
+        ok = all(v is not False for v in alone + every) and \
+            all(v is False for v in off)
+        ctx.ob(_R(P, 4), evs[0], ok,
+               f"{f.name}(): {sname} runs iff "
+               f"{' / '.join(own)} is requested, independent of the other "
+               f"options" if ok else
+               f"{f.name}(): {sname} at {evs[0].where} does not run exactly "
+               f"when {' / '.join(own)} is requested (alone: {alone}, with "
+               f"all other options: {every}, own option off: {off}) — a "
+               f"requested step is skipped or an unrequested one applied",
+               key=f"{_R(P, 4)}:{f.name}:{sname}:enabled")
     b = gr[0].data["bound"] or {}
     ok = b.get("ref_name") is tm.param("ref_name") and \
         b.get("est_name") is tm.param("est_name")
@@ -613,15 +664,25 @@ def _common_wiring(ctx, P: str):
                                    "motion_filter"),
                                   ("motion filter", mf, "motion_filter",
                                    "downsample")):
-        def given(t, opt=opt, other=other, on=True):
+        def given(t, opt=opt, other=other, on=True, other_on=False):
             if t is A(opt):
                 return on
             if t is A(other):
-                return False
+                return other_on
             if is_call_to(t, "builtins.isinstance"):
                 return True
             return None
         alone = [tm.fold(e.live, given) for e in evs]
+        both = [tm.fold(e.live, lambda t: given(t, other_on=True))
+                for e in evs]
+        okb = bool(evs) and all(v is not False for v in both)
+        ctx.ob(_R(P, 5), f, okb,
+               f"{name}: also runs when --{other} is given as well (all "
+               f"option combinations)" if okb else
+               f"{name}: is skipped when --{other} is given as well "
+               f"({[fmt(e.live)[:80] for e in evs]}) — the requested "
+               f"filtering is silently not applied",
+               key=f"{_R(P, 5)}:dof:{opt}:independent")
         off = [tm.fold(e.live, lambda t: given(t, on=False)) for e in evs]
         ok = bool(evs) and all(v is not False for v in alone) and \
             all(v is False for v in off)
